@@ -26,9 +26,9 @@ use crate::Cfg;
 const OPS: [Operator; 5] =
     [Operator::Equal, Operator::NotEqual, Operator::Contain, Operator::Match, Operator::NotMatch];
 
-struct Cap {
-    input: Cursor<Vec<u8>>,
-    out: Vec<u8>,
+pub(crate) struct Cap {
+    pub(crate) input: Cursor<Vec<u8>>,
+    pub(crate) out: Vec<u8>,
 }
 
 impl Read for Cap {
@@ -47,7 +47,7 @@ impl Write for Cap {
     }
 }
 
-fn mk_tag(spec: &str) -> Option<Tag> {
+pub(crate) fn mk_tag(spec: &str) -> Option<Tag> {
     if spec.is_empty() {
         return None;
     }
@@ -85,7 +85,7 @@ fn value(h: &str) -> Option<String> {
     String::from_utf8(unhex(h)).ok()
 }
 
-fn parse_tree(s: &str, p: &mut usize) -> Option<Filter> {
+pub(crate) fn parse_tree(s: &str, p: &mut usize) -> Option<Filter> {
     let kind = s[*p..].chars().next()?;
     *p += 1;
     eat(s, p, '(')?;
